@@ -307,13 +307,18 @@ def patched(cwd=None, clock=None, block=None):
         hasher.BLOCK_SIZE = old_b
 
 
-def run_class(kind, spelling, outfile, pl, opts, progress=0):
-    """construct the creator class on the path AS SPELLED and write(); returns the bytes of the written file"""
+def run_class(kind, spelling, outfile, pl, opts, progress=0, reassemble=False):
+    """construct the creator class on the path AS SPELLED and write(); returns the bytes of the written file.
+       reassemble: the legacy pattern of the library -- write(), then the PUBLIC assemble() again on the same object, then the
+       write() whose bytes are returned (the model is a function: one tree, one metafile, however often it is assembled)"""
     from torrentfile import torrent
     cls, kw = CLASS_OF[kind]
     kw = dict(kw)
     kw.update(opts)
     t = trees.quiet(getattr(torrent, cls), path=spelling, piece_length=pl, progress=progress, **kw)
+    if reassemble:
+        trees.quiet(t.write, outfile + ".first")
+        trees.quiet(t.assemble)
     out, _ = trees.quiet(t.write, outfile)
     with open(out, "rb") as fd:
         return fd.read()
@@ -365,8 +370,10 @@ def run_model(fn, lines, jobs=12):
 
 # ------------------------------------------------------------------------------------------------ case generation
 FILE_NAMES = ["a", "a.txt", "a-b", "A", "b", "ab", "a b", "é", "z", "0", "_x", "a.d", "B.bin", "c+d", "日本", "readme",
-              "README", "Readme", "a.TXT", "ä", "we\\ird.bin", "a\\b"]       # a backslash is an ordinary character on POSIX
-DIR_NAMES = ["a", "d", "a.d", "sub dir", "Z", "é", "a-b", "0", "Data", "data", "日本", "b\\s", "payload", "xpayload"]
+              "README", "Readme", "a.TXT", "ä", "we\\ird.bin", "a\\b",       # a backslash is an ordinary character on POSIX
+              "wait....bin", "..hidden", "a..", "x..y"]       # consecutive dots INSIDE a name: ordinary names, not the segment ".."
+DIR_NAMES = ["a", "d", "a.d", "sub dir", "Z", "é", "a-b", "0", "Data", "data", "日本", "b\\s", "payload", "xpayload", "disc..2", "..d",
+             "a.."]
 PAYLOAD_NAMES = ["payload", "pay load", "päy.d", "日本", "P", "a.b-c", "payload.tar.gz"]
 OPTION_KEYS = ["announce", "comment", "private", "source", "url_list", "httpseeds"]
 OPTION_VALUES = {
@@ -704,10 +711,10 @@ def unit(ctx, model_ok, n=None, budget=None, kinds_per_case=None, only_kinds=Non
                 inp = {"kind": "unit", "creator": kind, "tree": node, "summary": summary(node), "piece_length": pl,
                        "options": case["opts"], "payload_name": case["payload"], "spelling": spelling, "spelling_label": label,
                        "cwd_rel": os.path.relpath(cwd, case_dir), "clock": case["clock"], "block": case["block"],
-                       "patched_constant": case["block"] != B_REAL}
+                       "patched_constant": case["block"] != B_REAL, "reassemble": i % 3 == 1}
                 try:
                     with patched(cwd=cwd, clock=case["clock"], block=case["block"]), en:
-                        raw = run_class(kind, spelling, out, pl, case["opts"])
+                        raw = run_class(kind, spelling, out, pl, case["opts"], reassemble=inp["reassemble"])
                 except Exception as e:  # noqa
                     ctx.disagree("Model/Creators.v vs torrent.py: the creator raised", inp, "a metafile", f"{type(e).__name__}: {e}")
                     continue
@@ -825,7 +832,8 @@ def replay_unit(ctx, inp):
         en = EnumOrder(mapping_of(absolute, node))
         try:
             with patched(cwd=cwd, clock=inp["clock"], block=inp["block"]), en:
-                raw = run_class(inp["creator"], spelling, os.path.join(tmp, "out", "r.torrent"), pl, inp["options"])
+                raw = run_class(inp["creator"], spelling, os.path.join(tmp, "out", "r.torrent"), pl, inp["options"],
+                                reassemble=bool(inp.get("reassemble")))
         except Exception as e:  # noqa
             raw = e
         outs = run_model("create", [model_line(inp["creator"], inp["block"], pl, cwd, spelling, created_by(), inp["clock"],
